@@ -132,7 +132,7 @@ def family(run, mods, wd, rnd, hist):
     for n in range(maxitems + 1):
         lists = list(itertools.product(range(20), repeat=n))
         if n == 3 and run.tier == "quick":
-            k = 4
+            k = 8
             lists = [l for i, l in enumerate(lists) if i % k == run.seed % k]
         idx_all += lists
     chunks = [idx_all[i:i + 260] for i in range(0, len(idx_all), 260)]
@@ -177,6 +177,10 @@ SOURCES_C = [
 TMPLS_C = [
     "object", "ast.AST", "ast.expr", "ast.stmt", "ast.Name", "ast.Constant", "(ast.Name, ast.Constant)", "int", "str",
     "list", "W('x')", "W('x', ast.Name)", "W('x', (ast.Name, ast.Constant))", "W('x', ast.expr)",
+    "W('x', ast.Name(id=W('n')))", "W('x', ast.Call(func=W('f')))", "ast.Call(func=W('x', ast.Name(id=W('n'))))",
+    "(W('a', ast.Name), W('b'))", "(W('a', ast.Constant), W('b', ast.expr), W('c'))",
+    "ast.Call(args=[(W('a', ast.Constant), W('b')), (W('b', ast.Name), W('a'))])",
+    "ast.Call(args={W('a', ast.Constant), W('b')})", "ast.Call(func=(W('f', ast.Name), W('g')), args=[Star((W('a', ast.Constant), W('b')))])",
     "W('Ellipsis_anything', object, False)", "W('Ellipsis_anything', ast.Name)",
     "ast.Constant(value=int)", "ast.Constant(value=(int, float))", "ast.Constant(value=1)", "ast.Constant(value=True)",
     "ast.Constant(value=None)", "ast.Constant(value=W('v'))", "ast.Constant(value='x')", "ast.Constant(value=1.5)",
@@ -212,6 +216,14 @@ TMPLS_C = [
 
 def cases_misc(mods):
     out = []
+    # every node of a source used as a template for every node of the same source (reflexivity and
+    # structurally equal nodes at different positions)
+    for src in SOURCES_C:
+        nodes = list(ast.walk(ast.parse(src)))
+        for i, a in enumerate(nodes):
+            for j, b in enumerate(nodes):
+                if type(a) is type(b) and not isinstance(a, (ast.expr_context, ast.operator, ast.cmpop)):
+                    out.append({"kind": "match", "tmpl": "EMBED", "tnode": i, "source": src, "node": j})
     for src in SOURCES_C:
         n = len(list(ast.walk(ast.parse(src))))
         for t in TMPLS_C:
@@ -263,7 +275,7 @@ def cases_nested(tier, rnd):
     n_small = len(out)
     big_t = list(nest_templates(NEST_INNER, NEST_OUTER, 2, 2))
     big_s = list(nest_sources(3, 2))
-    n = 2500 if tier == "quick" else 40000
+    n = 1500 if tier == "quick" else 40000
     for _ in range(n):
         hand, comp = rnd.choice(big_t)
         out.append({"kind": "match", "tmpl": rnd.choice((hand, comp)), "source": rnd.choice(big_s), "node": 2})
@@ -391,7 +403,7 @@ def generalise(rnd, node, p=0.25):
 
 def cases_random(mods, tier, rnd):
     out = []
-    ntrees = 260 if tier == "quick" else 4000
+    ntrees = 200 if tier == "quick" else 4000
     pool = []
     for _ in range(ntrees):
         src = "\n".join(rstmts(rnd)) if rnd.random() < 0.6 else rexpr(rnd)
@@ -540,7 +552,8 @@ class Builder:
         if c["tmpl"] != "EMBED" and isinstance(self.tmpls[c["tmpl"]], Exception):
             self.skipped["template-build-raises:" + type(self.tmpls[c["tmpl"]]).__name__] += 1
             return None
-        tmpl = node if c["tmpl"] == "EMBED" else self.tmpls[c["tmpl"]]
+        tnode = get_node(tree, c["tnode"]) if "tnode" in c else node
+        tmpl = tnode if c["tmpl"] == "EMBED" else self.tmpls[c["tmpl"]]
         ignore = mods["core"].DEFAULT_IGNORE
         try:
             m = impl_match(mods, node, tmpl)
@@ -552,7 +565,7 @@ class Builder:
             return None
         try:
             ids = conv.name_ids(tmpl)
-            tk = ("E", conv.uid(node)) if c["tmpl"] == "EMBED" else c["tmpl"]
+            tk = ("E", conv.uid(tnode)) if c["tmpl"] == "EMBED" else c["tmpl"]
             if tk not in self.tnames:
                 self.tnames[tk] = conv.define(f"t_{len(self.tnames)}", conv.tmpl(tmpl, ignore, ids))
             t = self.tnames[tk]
@@ -685,24 +698,10 @@ def sig_bare_wildcard(mods, f):
         re.fullmatch(r"\s*\{\{(\w+|\.\.\.)\}\}\s*", f["pattern"]) is not None
 
 
-def sig_python_equality(mods, f):
-    # the invented occurrences are constants that compare == to a constant of the pattern but are not it
-    if not f["model_agrees"] or f["missing"] or not f["extra"]:
-        return False
-    consts = {repr(n.value) for n in ast.walk(ast.parse(re.sub(r"\{\{[\w.]+[?*+]?\}\}", "zz", f["pattern"])))
-              if isinstance(n, ast.Constant)}
-    for e in f["extra"]:
-        ecs = [n.value for n in ast.walk(ast.parse(e.strip())) if isinstance(n, ast.Constant)]
-        if not any(repr(c) not in consts and any(c == eval(k) for k in consts) for c in ecs):  # noqa: S307
-            return False
-    return True
-
-
 SIGS = {
     "named_quantifier_forced_equal": sig_named_quantifier_forced_equal,
     "no_backtracking_across_fields": sig_no_backtracking,
     "bare_wildcard_pattern": sig_bare_wildcard,
-    "python_equality_on_constants": sig_python_equality,
 }
 
 SWEEP_ITEMS = ["{{x}}", "{{y}}", "{{...}}", "{{x*}}", "{{...*}}", "{{x?}}", "{{...+}}", "0", "1"]
@@ -734,7 +733,6 @@ FINDING_WITNESS = {
     "F12-1": ("g([{{...*}}, {{x}}, {{...*}}], {{x}})", "g([1, 2], 2)\n"),
     "F12-2": ("f({{a*}})", "f(1, 2)\n"),
     "F12-3": ("{{x}}", "f(1, 2)\n"),
-    "F12-4": ("1", "x = True\ny = 1.0\nz = 1\n"),
 }
 
 
@@ -866,10 +864,18 @@ def check(run: common.Run):
         [p for p in (pattern_of(c["tmpl"]) for c in specs) if p][:3000]
     n_glue, glue_bad = compile_glue_check(mods, B.conv, sorted(set(pats)))
 
-    # 5. deterministic sweep of the property oracle + known findings
+    # 5. deterministic sweep of the property oracle + known findings; the corpus (witnesses of
+    #    repaired defects) first -- those must pass from now on
     kf = common.load_findings(PID)
     sweep = sweep_cases()
     failures, matched = [], Counter()
+    corpus_n = 0
+    for cp in sorted((common.VERIF / "corpus" / "match").glob("*.json")):
+        for pattern, source in json.loads(cp.read_text()).get("cases", []):
+            corpus_n += 1
+            f = oracle_case(mods, pattern, source)
+            if f is not None:
+                failures.append(dict(f, corpus=cp.name, note="witness of a repaired defect fails again"))
     for pattern, source in sweep:
         f = oracle_case(mods, pattern, source)
         if f is None:
@@ -926,7 +932,7 @@ def check(run: common.Run):
     run.coverage.update(
         evaluations=n_eval + len(sweep),
         distinct_nontrivial=len(distinct) + n_itemlists,
-        rule=("family: every item list of length <=2 (and " + ("1/4 of length 3, shard = seed mod 4" if run.tier == "quick" else "all of length 3") +
+        rule=("family: every item list of length <=2 (and " + ("1/8 of length 3, shard = seed mod 8" if run.tier == "quick" else "all of length 3") +
               ") over {object, Constant 0, Constant 1, Wildcard x, Wildcard y} x {plain,?,*,+} against ALL node lists "
               "of length <=4 over Constant 0/1/2, real core.match_template vs the model evaluated in Coq, one checksum "
               "per item list (exhaustive for length <=2). explicit cases: 100+ hand-built/compiled templates x every "
@@ -939,7 +945,8 @@ def check(run: common.Run):
         exhaustive=False, exhaustive_family_itemlists_upto=2, family_cases=n_family,
         histogram=dict(hist), skipped=dict(B.skipped),
         correspondence_disagreements=len(disagreements), glue_patterns_compared=n_glue, glue_disagreements=len(glue_bad),
-        sweep={"cases": len(sweep), "unexplained_failures": len(failures), "matched_known": dict(matched)},
+        sweep={"cases": len(sweep), "corpus_cases": corpus_n, "unexplained_failures": len(failures),
+               "matched_known": dict(matched)},
         timing={"generate_s": round(t_gen - t_start, 1), "coq_s": round(t_coq - t_gen, 1)},
         unmodelled=["core.compile_template (glue: compared against a 60-line reference for expression / simple "
                     "statement patterns)", "core.walk_sequence expand_first/expand_last (not used by finditer)",
@@ -1008,7 +1015,7 @@ def replay(path: str) -> int:
         r = B.match_case(d)
         tree = B.tree(d["source"])
         node = get_node(tree, d["node"])
-        tmpl = node if d["tmpl"] == "EMBED" else build_tmpl(mods, d["tmpl"])
+        tmpl = get_node(tree, d.get("tnode", d["node"])) if d["tmpl"] == "EMBED" else build_tmpl(mods, d["tmpl"])
         print("implementation:", impl_match(mods, node, tmpl))
         if r:
             wd = common.workdir(PID + "-replay")
